@@ -24,6 +24,7 @@
  *                uT:K          used_once returned  mT:K     use found no entry (skipped)
  *                lT:K=ID:cnt/lmt/ret | lT:K=-      lookup result
  *                xT:ID         double free (not forwarded to the mempool)
+ *                !T:what       table access (find/remove/insert) by datarepo.c without the bucket lock
  *        a fault (NULL entry dereferenced) ends the case: events so far and <crash tT>;
  *        <starved>: the remaining threads all wait for a grant; <deadlock>: one waits for a lock.  */
 #include "interpose.h"
@@ -39,9 +40,23 @@ static void  h_free(parsec_thread_mempool_t *p, void *e);
 #define parsec_thread_mempool_allocate(p) h_alloc(p)
 #define parsec_thread_mempool_free(p, e)  h_free(p, e)
 #include "parsec/class/parsec_hash_table.c"
+/* lock-discipline probe: the nolock_* table accesses of datarepo.c must happen while the bucket is
+ * locked (code that follows an unlock runs in the same segment as the unlock, so a table access
+ * moved behind the unlock would otherwise look atomic to the controlled schedules) */
+static void emit(const char *fmt, ...);
+static void h_locked(parsec_hash_table_t *ht, const parsec_key_handle_t *kh, const char *what) {
+    parsec_atomic_lock_t *l = &ht->rw_hash->buckets[kh->hash].lock;
+    if ((parsec_atomic_trylock)(l)) { (parsec_atomic_unlock)(l); emit(" !%d:%s", cos_self(), what); }
+}
+#define parsec_hash_table_nolock_find_handle(ht, kh)      (h_locked(ht, kh, "find"),   parsec_hash_table_nolock_find_handle(ht, kh))
+#define parsec_hash_table_nolock_remove_handle(ht, kh)    (h_locked(ht, kh, "remove"), parsec_hash_table_nolock_remove_handle(ht, kh))
+#define parsec_hash_table_nolock_insert_handle(ht, kh, i) (h_locked(ht, kh, "insert"), parsec_hash_table_nolock_insert_handle(ht, kh, i))
 #include "parsec/datarepo.c"
 #undef parsec_thread_mempool_allocate
 #undef parsec_thread_mempool_free
+#undef parsec_hash_table_nolock_find_handle
+#undef parsec_hash_table_nolock_remove_handle
+#undef parsec_hash_table_nolock_insert_handle
 #include "hcommon.h"
 
 #define MAXT 8
